@@ -5,6 +5,7 @@ import (
 	"fmt"
 
 	"github.com/risor-io/risor/errz"
+	"github.com/risor-io/risor/internal/verifhook"
 	"github.com/risor-io/risor/op"
 )
 
@@ -94,6 +95,7 @@ func (c *Chan) GetAttr(name string) (Object, bool) {
 }
 
 func (c *Chan) Close() (err error) {
+	verifhook.Yield("chan.close")
 	// Translate a "close of closed channel" panic to an error
 	defer func() {
 		if r := recover(); r != nil {
@@ -109,6 +111,8 @@ func (c *Chan) Capacity() int {
 }
 
 func (c *Chan) Next(ctx context.Context) (Object, bool) {
+	verifhook.Yield("chan.next")
+	defer verifhook.Yield("chan.next.done")
 	select {
 	case <-ctx.Done():
 		return nil, false
@@ -138,6 +142,8 @@ func (c *Chan) Iter() Iterator {
 }
 
 func (c *Chan) Send(ctx context.Context, value Object) (err error) {
+	verifhook.Yield("chan.send")
+	defer verifhook.Yield("chan.send.done")
 	// Translate a "send on closed channel" panic to an error
 	defer func() {
 		if r := recover(); r != nil {
@@ -153,6 +159,8 @@ func (c *Chan) Send(ctx context.Context, value Object) (err error) {
 }
 
 func (c *Chan) Receive(ctx context.Context) (Object, error) {
+	verifhook.Yield("chan.recv")
+	defer verifhook.Yield("chan.recv.done")
 	select {
 	case <-ctx.Done():
 		return nil, ctx.Err()
